@@ -13,6 +13,7 @@ import (
 
 	"verifharness/gen"
 	"verifharness/obs"
+	"verifharness/ref"
 )
 
 // C18 — failures of the underlying reader or writer are always surfaced to the caller.
@@ -152,7 +153,10 @@ func TestC18Reader(t *testing.T) {
 		o := defaultStreamOpts()
 		o.maxPESLen, o.maxUnits, o.maxPESPIDs, o.smallPSI = 400, 2, 2, true
 		m := drawStream(t, o)
-		data := m.bytes()
+		// two null packets first: with a plain reader auto-detection consumes its 193-byte window (documented), which
+		// must not cost the stream a packet of a unit
+		null := ref.NullPacket(0xff).MustEncode()
+		data := append(append(append([]byte{}, null...), null...), m.bytes()...)
 		if len(m.packets) < 3 {
 			t.Skip("stream too short")
 		}
